@@ -126,3 +126,28 @@ Definition verdict_of_failure (o : option (bstr * check_err)) : verdict :=
   match o with None => Accept | Some (_, e) => Reject (cls e) end.
 Definition check_registry_c13 (reg : registry) : verdict :=
   verdict_of_failure (first_failure (check_template (sorted_after (fun ks => ks)) (find_template (r_templates reg))) (r_templates reg)).
+
+(* ------------------------------------------------------------------ *)
+(* Bundle.Compile after parsing as Model/Compile.v (C13) has it, on the files of Model/Checker.v *)
+Definition conv_file (f : soyfile) : sfile :=
+  {| sfile_name := sf_name f; sfile_text := sf_text f; sfile_body := sf_body f |}.
+
+Definition cls_add (e : add_err) : rej :=
+  match e with
+  | AENamespaceExpected _ | AENamespaceRequired => RNoNamespace
+  | AEBothParamKinds _ => RBothParamKinds
+  | AEDuplicate _ _ _ => RDuplicateTemplate
+  | AEIndexCrash | AEOutOfModel _ => RShape
+  end.
+
+(* Bundle.Compile after parsing, as C13's model has it (Add for every file, then CheckDataRefs; the later
+   passes -- SetGlobals, message ids -- are not data-reference rules), with the classes of C07 *)
+Definition compile_check_c13 (ko0 : korder) (fs : list soyfile) : verdict :=
+  match add_all_files empty_creg (map (fun f => SrcOk (conv_file f)) fs) with
+  | CErr (EAdd _ e) => Reject (cls_add e)
+  | CErr _ => Reject RShape
+  | COk r =>
+      verdict_of_failure (first_failure (check_template (sorted_after ko0) (find_template (r_templates (cr_reg r))))
+                                        (r_templates (cr_reg r)))
+  end.
+
